@@ -89,6 +89,15 @@ type Log struct {
 	W   *hx.Writer
 	Mem []map[string]any
 	cur string // process released last by the cooperative scheduler ("" if unknown)
+	muted bool // set when the simulated machine / process died: nothing after that instant is observable
+}
+
+// Mute stops recording: whatever the goroutines do while they are being torn
+// down after a simulated crash never happened as far as the property is concerned.
+func (l *Log) Mute() {
+	l.mu.Lock()
+	l.muted = true
+	l.mu.Unlock()
 }
 
 // SetCur records which logical process the scheduler lets run (cooperative mode).
@@ -107,6 +116,10 @@ func (l *Log) Cur() string {
 
 func (l *Log) Emit(ev map[string]any) {
 	l.mu.Lock()
+	if l.muted {
+		l.mu.Unlock()
+		return
+	}
 	l.seq++
 	ev["seq"] = l.seq
 	if l.W != nil {
@@ -255,6 +268,23 @@ func (rawFactory) NewBufferFromReaderAt(d digest.Digest, r buffer.ReadAtCloser, 
 	return buffer.NewValidatedBufferFromReaderAt(r, sizeBytes)
 }
 
+// recBlockList logs rotations of the block list (design-level events).
+type recBlockList struct {
+	local.BlockList
+	log *Log
+}
+
+func (b *recBlockList) PopFront() {
+	b.BlockList.PopFront()
+	b.log.Emit(map[string]any{"ev": "PopFront"})
+}
+
+func (b *recBlockList) PushBack() error {
+	err := b.BlockList.PushBack()
+	b.log.Emit(map[string]any{"ev": "PushBack", "ok": err == nil})
+	return err
+}
+
 // recKLM logs index insertions (design-level event).
 type recKLM struct {
 	base local.KeyLocationMap
@@ -281,6 +311,7 @@ type Store struct {
 	Idx    *sim.Device // nil for the in-memory index
 	LBM    *local.OldCurrentNewLocationBlobMap
 	Label  string
+	P      *Persist // nil for a volatile store
 
 	getMu       sync.Mutex
 	blockSeq    int64
@@ -321,7 +352,7 @@ func New(cfg Config, log *Log, sc *sched.Sched) *Store {
 		alloc = local.NewInMemoryBlockAllocator(cfg.BlockBytes())
 	}
 	ralloc := &recAllocator{base: alloc, log: log, st: st}
-	blockList := local.NewVolatileBlockList(ralloc)
+	blockList := &recBlockList{BlockList: local.NewVolatileBlockList(ralloc), log: log}
 	var policy local.BlockListGrowthPolicy
 	if cfg.Policy == "mutable" {
 		policy = local.NewMutableBlockListGrowthPolicy(cfg.Cur)
